@@ -179,6 +179,8 @@ def check_c02(ctx):
     # call-graph programs whose calls may dangle: judged like the others, and the linter's warnings are compared with
     # the dangling calls the specification computes (beyond the listed properties: reported, no verdict)
     calls = programs(ctx, 60 if ctx.quick() else 600, seed_off=22, cfg="GenCalls.cfg")
+    for i, s in enumerate(scn):
+        s["reprint"] = i % 4 == 0     # beyond the listed properties: printed back by pkg/printer and compiled again
     for s in calls:
         s["id"] += len(scn)
         s["lint"] = True
@@ -196,6 +198,14 @@ def check_c02(ctx):
     _judge(ctx, "C02", scn, events, prints,
            lambda n: n.startswith(("Missing:", "Spurious:")) or n in ("Rejected", "IllFormedProgram"))
     for kind, p in prints:
+        if kind == "EXTRA" and "reprint" in p["what"]:
+            w = p["what"]
+            if "PrintedTextDoesNotCompile" in w["reprint"]:
+                core.add_extra(ctx, "printer/PrintedTextDoesNotCompile", "program %d printed back by pkg/printer does not compile" % p["t"])
+            else:
+                for k in sorted(w["reprint"]):
+                    core.add_extra(ctx, "printer/" + k, "program %d printed back by pkg/printer and compiled again, e.g. %s" % (p["t"], json.dumps(w["example"])[:200]))
+            continue
         if kind == "EXTRA":
             w = p["what"]
             role = "+".join(sorted({"missing:" + x[0] for x in w["missing"]} | {"spurious:" + x[0] for x in w["spurious"]}))
@@ -205,7 +215,7 @@ def check_c02(ctx):
     cov = {"states": mc.distinct, "transitions": mc.generated, "traces_validated_against_impl": len(scn),
            "trace_events": nev, "declarations": sum(len(s["decls"]) for s in scn),
            "distinct_declaration_kind_x_scope": nk, "distinct_type_shapes": ns, "programs_given_a_namesake_application": nadded,
-           "programs_with_linter_warnings_compared": len(calls), "rest_path_trees": len(trees), "fields_declared_again_with_another_type": nredecl, "linter_warnings": sum(len(e.get("warnings", [])) for e in events if e["e"] == "lint"),
+           "programs_with_linter_warnings_compared": len(calls), "programs_printed_back_and_recompiled": sum(1 for e in events if e["e"] == "reprint"), "rest_path_trees": len(trees), "fields_declared_again_with_another_type": nredecl, "linter_warnings": sum(len(e.get("warnings", [])) for e in events if e["e"] == "lint"),
            "samples": [{"decls": scn[0]["decls"][:12]}] if scn else []}
     return core.finish(ctx, "model_checking", cov, ASSUME)
 
